@@ -138,7 +138,12 @@ class Src:
             o = self.body_open(mm.end(), end)
             if o < 0:
                 continue
-            out.append(dict(kind=mm.group(1), kw=mm.start(), open=o, close=self.match_brace(o)))
+            kind, r18 = mm.group(1), None
+            m18 = re.match(r' /\*@R18\|([^|]*)\|([^|]*)\|([^|]*)\|([^|*]*)\*/', self.text[mm.end():mm.end() + 400])
+            if kind == 'while' and m18:
+                # a range `for` loop rewritten by rule R18: still addressed as a `for` loop by annotations
+                kind, r18 = 'for', (m18.group(1), m18.group(2), m18.group(3), m18.group(4))
+            out.append(dict(kind=kind, kw=mm.start(), open=o, close=self.match_brace(o), r18=r18))
         return out
 
     def line_of(self, i):
